@@ -272,6 +272,12 @@ theorem shrink_contract_checked {cap : List Nat} {before after : List Perm} (h :
     ∀ q, Grp.Gen cap after q ↔ Grp.Gen cap ((before.filter (Grp.preservesCap cap)).map (Grp.restrict cap)) q :=
   Grpw.shrinkOK_spec h
 
+/-- a `Group::add` entry accepted by `Grpw.addOK` (self-unions in `union_leaders`, `determine_self_symmetries`): the class keeps every
+symmetry it had, gains the asserted one, and gains nothing that those do not generate -/
+theorem add_contract_checked {Ω : List Nat} {before after : List Perm} {p : Perm} (h : Grpw.addOK Ω before p after = true) :
+    Grp.Valid Ω after ∧ Grp.IsPerm Ω p ∧ ∀ q, Grp.Gen Ω after q ↔ Grp.Gen Ω (before ++ [p]) q :=
+  Grpw.addOK_spec h
+
 /-- non-vacuity: the class merged away has the swap of its two slots 0, 4 as generator, `N` maps the survivor's slots 8, 12 onto
 them, the survivor had no symmetry and has the transported swap afterwards -/
 example : Grpw.mergeOK [8, 12] [(8, 0), (12, 4)] [[(0, 4), (4, 0)]] [] [[(8, 12), (12, 8)]] = true := by decide
